@@ -693,6 +693,9 @@ class TaskTheory(FutTheory):
             return [(st, IntV(fresh("task_no", I)))]
         if n == "str" and len(pos) == 1:
             return self.ip.to_str(st, fr, pos[0])
+        if n == "futures.isfuture":
+            obj = ip.deref(st, pos[0])
+            return [(st, BoolV(z3.Select(arr_b("is_future"), obj.t)))]
         if n == "events.get_running_loop":
             return [(st, RefV(self.THE_LOOP))]
         if n == "contextvars.copy_context":
@@ -985,3 +988,13 @@ def u_task(ip: Interp, th: TaskTheory, std: StdRepo):
                 ip.require(s, T + "the-given-name-is-set-on-exactly-that-task(C11:the-pool's-task-names)", z3.And(sn[0][1] == ct[0][3], sn[0][2].t == nm.t) if ok and len(sn) == 1 and isinstance(sn[0][2], StrV) else z3.BoolVal(False), P + ("C11",))
             else:
                 ip.require(s, T + "no-name-is-set", z3.BoolVal(not sn), P + ("C11",))
+
+    # ================= ensure_future(fut): what gather() does with the pool's tasks =====================================
+    fi = std.functions["tasks.ensure_future"]
+    ip.extra_functions["asyncio.tasks.ensure_future(future-argument)"] = fi.src_hash
+    st = th.initial()
+    given = fresh("given_future", Ref)
+    st.assume(z3.And(given != NONE, z3.Select(arr_b("is_future"), given)))  # the pool hands tasks to gather
+    for s, v in ip.exec_function(st, fi, None, {"coro_or_future": RefV(given), "loop": NoneV()}):
+        ip.require(s, "ensure_future:a-future-is-returned-as-it-is(distinct-arguments-stay-distinct-children);no-task-is-created",
+                   z3.And(v.t == given, z3.BoolVal(not _events(s, "loop.create_task"))) if isinstance(v, RefV) else z3.BoolVal(False), P)
